@@ -4,7 +4,7 @@ runs the quick check of its property (plus the related checks listed below), und
 (git checkout), and records which named obligations reported the violation."""
 import json, os, subprocess, sys, glob, re
 V='/verif'; R='/repo'
-ALSO={'C02':['C01','C15','C03'],'C06':['C15','C01'],'C10':['C12','C11','C03'],'C08':['C04'],'C05':['C04'],'C19':['C05','C17'],'C14':['C12'],'C09':['C03'],'C16':['C11'],'C03':['C01'],'C13':['C01','C17'],'C18':[]}
+ALSO={'C02':['C15','C03'],'C06':['C15','C01'],'C10':['C12','C11'],'C08':['C04'],'C05':['C04'],'C19':['C05','C17'],'C14':['C12'],'C09':['C03'],'C16':['C11'],'C03':['C01'],'C13':['C01','C17'],'C18':[]}
 only=sys.argv[1:] 
 if subprocess.run('git -C %s status --porcelain'%R,shell=True,capture_output=True,text=True).stdout.strip():
     print('REPO DIRTY'); sys.exit(2)
